@@ -288,6 +288,25 @@ fn normalize(c: &Case) -> Norm {
     n
 }
 
+/// the picture starts with EF BB BF and the rest of its characters do NOT form valid UTF-8 (colour codes are ASCII and do not matter):
+/// on the unchanged tree such a file loads as CP437 - the neighbour class of the open BOM finding, never to be folded into it
+fn bom_with_non_utf8_rest(n: &Norm) -> bool {
+    if !has_bom(n) || n.fmt == ATA {
+        return false;
+    }
+    let mut bytes: Vec<u8> = Vec::new();
+    for (y, r) in n.rows.iter().enumerate() {
+        for (x, c) in r.iter().enumerate() {
+            if y == 0 && x < 3 {
+                continue;
+            }
+            bytes.push(c.0);
+        }
+        bytes.push(b'\n');
+    }
+    std::str::from_utf8(&bytes).is_err()
+}
+
 fn has_bom(n: &Norm) -> bool {
     n.rows[0].len() >= 3 && n.rows[0][0].0 == 0xEF && n.rows[0][1].0 == 0xBB && n.rows[0][2].0 == 0xBF
 }
@@ -551,7 +570,13 @@ fn step_name(s: Step, n: &Norm) -> &'static str {
         }
         Step::Rep => "bold_flag_storage",
         Step::Shape => "storage_shape",
-        Step::Bom => "utf8_bom_prefix",
+        Step::Bom => {
+            if bom_with_non_utf8_rest(n) {
+                "bom_start_non_utf8_rest"
+            } else {
+                "utf8_bom_prefix"
+            }
+        }
         Step::Pad => "explicit_trailing_blanks",
         Step::FullWidthRow => "full_width_row",
         Step::MultiRow => "multirow",
@@ -799,6 +824,8 @@ fn attribute(n0: &Norm, fail0: &Failure) -> (String, String) {
     let mut fail = fail0.clone();
     let mut needed: Vec<Step> = Vec::new();
     let mut protect_bom = false;
+    // a failing picture of the neighbour class must not be simplified into the class of the open finding
+    let keep_non_utf8 = bom_with_non_utf8_rest(n0);
     let mut todo: Vec<Step> = STEPS.to_vec();
     for _pass in 0..4 {
         let mut changed = false;
@@ -811,6 +838,9 @@ fn attribute(n0: &Norm, fail0: &Failure) -> (String, String) {
             let mut kept = false;
             for c in cands {
                 if c == cur {
+                    continue;
+                }
+                if keep_non_utf8 && !bom_with_non_utf8_rest(&c) {
                     continue;
                 }
                 if let Some(f) = failure(&c) {
